@@ -471,7 +471,14 @@ def _r4_root(run):
     run.note_func(f)
     ev = sym.make_evaluator(project, BLD, [])
     r = ev.run(f.node)
-    st = {e.term[1][0][2]: e.term[1][1] for e in r.events if e.kind == "store" and e.term[1][0][0] == "attr" and e.term[1][0][2] in ("data_min", "data_max")}
+    st_ev = {e.term[1][0][2]: e for e in r.events if e.kind == "store" and e.term[1][0][0] == "attr" and e.term[1][0][2] in ("data_min", "data_max")}
+    st = {k: e.term[1][1] for k, e in st_ev.items()}
+    # the range is recorded for every FITS pyramid: the only condition allowed on the way is the format test
+    for k, e in st_ev.items():
+        extra = [c for c in e.pc if c[0] != "loop" and "fits" not in show(c[0]) and not (c[0][0] == "op" and c[0][1] == "enter")]
+        if extra:
+            run.violated("C14.R4", f, e.node, "the image set's %s is only recorded under %s: for the other pyramids (e.g. a single-tile one) the WTML carries no "
+                         "(or a zero) data range" % (k, [("" if p_ else "not ") + show(c_)[:80] for c_, p_ in extra]), kind="root-range-conditional")
     def key(t):
         if t is not None and t[0] == "sub" and t[2][0] == "const":
             return t[2][1], show(t[1])
